@@ -621,6 +621,7 @@ func init() {
 				{Name: "int-chains", MaxDevs: -1, Run: c17NumberScenario},
 				{Name: "shared-and-coercer", MaxDevs: -1, Run: c17SharedScenario},
 				{Name: "modifiers-after-use", MaxDevs: -1, Run: c17ReuseScenario},
+				{Name: "coercer-own-schema", MaxDevs: -1, Run: c17CoercerKindsScenario},
 			}
 			for i, c := range c17StringCalls() {
 				items = append(items, Item{Name: "string-chains/first=" + c.name, MaxDevs: -1, Run: c17StringScenario(c17Len(tier), i)})
